@@ -35,6 +35,13 @@ def write_evidence(pid, ev):
     with open(os.path.join(d, pid + '.json'), 'w') as f:
         json.dump(ev, f, indent=1)
 
+def safe_monitor(prop, line, trace, mline):
+    """a monitor that cannot even parse the implementation's trace has met behaviour it was not written for: that is reported, not crashed on"""
+    try:
+        return prop.monitor(line, trace, mline)
+    except Exception as e:          # noqa
+        return 'unparseable-trace: the monitor could not interpret the implementation trace (%s: %s): %s' % (type(e).__name__, str(e)[:80], (trace or '')[:120])
+
 def check_property(pid, tier, seed):
     t0 = time.time()
     prop = REGISTRY[pid]
@@ -130,7 +137,7 @@ def check_property(pid, tier, seed):
                     continue
                 itd = impl_dbg.get(cid)
                 if kind in getattr(prop, 'impl_only_kinds', ()):
-                    vd = prop.monitor(line, itd or '', line)
+                    vd = safe_monitor(prop, line, itd or '', line)
                     if vd:
                         monitor_hits.append((cid, vd + ' [debug build]', itd))
                     continue
@@ -140,7 +147,7 @@ def check_property(pid, tier, seed):
                 mtd = model_dbg.get(cid)
                 if mtd is None or prop.project(line, itd_c) != prop.project(line, mtd):
                     mismatches.append((cid, 'correspondence (debug build)', itd_c, mtd))
-                vd = prop.monitor(line, itd, line)
+                vd = safe_monitor(prop, line, itd, line)
                 if vd:
                     monitor_hits.append((cid, vd + ' [debug build]', itd_c))
             cov['debug_build_cases'] = len(impl_dbg)
@@ -191,7 +198,7 @@ def check_property(pid, tier, seed):
         if kind in ('KS', 'KR'):
             continue          # hook-off support cases: already judged above
         if kind in getattr(prop, 'impl_only_kinds', ()):
-            v = prop.monitor(line, it or '', mline_by_id.get(cid, line))
+            v = safe_monitor(prop, line, it or '', mline_by_id.get(cid, line))
             if v: monitor_hits.append((cid, v, it))
             nontrivial.add(hash(line))
             continue
@@ -211,7 +218,7 @@ def check_property(pid, tier, seed):
             mismatches.append((cid, 'correspondence', it, mt))
         elif it != mt:
             fidelity.append(cid)
-        v = prop.monitor(line, it_full, mline_by_id.get(cid, line))
+        v = safe_monitor(prop, line, it_full, mline_by_id.get(cid, line))
         if v:
             sig = prop.signature(line, it, v)
             kf = [k for k in known.get('findings', []) if k['property'] == pid and k['signature'] == sig]
@@ -335,10 +342,18 @@ def main(argv):
     if '--tier' in argv:
         tier = argv[argv.index('--tier') + 1]
     seed = int(os.environ.get('VERIF_SEED', '1'))
+    if '--seed' in argv:
+        seed = int(argv[argv.index('--seed') + 1])
     if pid not in REGISTRY:
         print('unknown property', pid); return 2
     try:
         return check_property(pid, tier, seed)
     except Exception:
-        traceback.print_exc()
-        return 3
+        # the machinery itself failed on this tree: the property is not shown to hold, and no failing input is at hand
+        tb = traceback.format_exc()
+        sys.stderr.write(tb)
+        path = write_replay(pid, {'property': pid, 'kind': 'internal-error',
+                                  'no_longer_checks': 'the check could not complete on this tree (tool error while building, running or monitoring)',
+                                  'traceback': tb[-4000:]})
+        print('VIOLATION property=%s replay=%s no-failing-input-found' % (pid, path))
+        return 1
